@@ -32,6 +32,8 @@ RULE = ('hand-built dyadic hierarchies (levels 2-4, n0<=5, entries in {0,+-1/2,+
         '(5 constructors + AIR, smoothers gauss_seidel/jacobi/sor/block/schwarz/NE/chebyshev, coarse pinv/lu/cholesky/splu): '
         'dense reference recursion (tol 1e-9), fixed point, k calls = k-cycle call, preconditioner linear and equal to M. '
         'Non-trivial: >= 2 levels; distinct = distinct (hierarchy, cycle, cpl, k, vectors).')
+RULE += (' '
+         'Also: 2x2 block smoothers; the operator handed to a spy accelerator by solve(accel=..., cycle=...) equals M of that cycle; a guess within the default tolerance is still updated by one cycle.')
 TRUSTED = ['SciPy sparse @ dense (exact on dyadic data)', 'NumPy dense linear algebra on the oracle side']
 PARTIAL = ['instance gap between abstract groups and sized rational lists (covered by correspondence only)']
 NOT_COVERED = ['AMLI cycle, Krylov smoothers and coarse solvers (excluded by the property)']
